@@ -1,7 +1,7 @@
-SPECIFICATION GenSpec
+SPECIFICATION FormSpec
 CONSTANTS
   Entities <- GenEntities
-  KeyIDs <- GenKeyIDs
+  KeyIDs <- FormKeyIDs
   Keys <- GenKeys
   PlainMembers <- GenPlain
   NestedMembers <- GenNested
@@ -9,10 +9,10 @@ CONSTANTS
   NVals <- GenNVals
   UVals <- GenUVals
   Presentations <- GenPres
-  ForeignForms <- NoForms
-  EntityForms <- NoForms
-  Starts <- StartsThorough
-  MaxLen = 5
+  ForeignForms <- GenForms
+  EntityForms <- GenEntForms
+  Starts <- StartsFormQuick
+  MaxLen = 3
   MaxSigns = 3
 INVARIANTS TypeOK Complete CompleteNet Sound SoundTamper OneKey SignPreserves UncoveredFree EditsKeepSignatures ForeignEntryLocal ForeignEntityLocal FormsIrrelevant Emit
 CHECK_DEADLOCK FALSE
